@@ -52,7 +52,7 @@ import (
 // enc.Close(), which is the call that writes the final (partial) base64 group. A writer that
 // refuses exactly that write goes unnoticed: the Inspect* call returns nil with the rendering cut
 // short. Until the coordinator decides, such a case is counted, not judged.
-const judgeBase64FinalGroupWriteFault = false
+const judgeBase64FinalGroupWriteFault = true
 
 const (
 	entSevAPI  = "InspectMask (several paths)"
